@@ -117,4 +117,17 @@ Fixpoint run_qarc (q : qarc) (s : nb * nb) (ops : list aop) : list Z :=
   | o :: r => let '(q', s', out) := qarc_step q s o in
               out ++ enc_qarc q' ++ enc_nb (fst s') ++ enc_nb (snd s') ++ run_qarc q' s' r
   end.
+
+Definition enc_altarc (L : nat) (l : altarc) : list Z :=
+  enc_arc (l_a l) ++ enc_buckets (l_b l) L ++ encn (length (l_b l))
+  ++ ev (l_qs l) ++ ev (l_qs_ l) ++ ev (l_decayed l).
+Definition altarc_step (l : altarc) (s : nb * nb) (o : aop) : altarc * (nb * nb) * list Z :=
+  let '(l', s', r) := alt_do _ nbport l s o in
+  (l', s', if has_reply o then ev r else []).
+Fixpoint run_altarc (L : nat) (l : altarc) (s : nb * nb) (ops : list aop) : list Z :=
+  match ops with
+  | [] => []
+  | o :: r => let '(l', s', out) := altarc_step l s o in
+              out ++ enc_altarc L l' ++ enc_nb (fst s') ++ enc_nb (snd s') ++ run_altarc L l' s' r
+  end.
 End Dim.
